@@ -3,6 +3,8 @@ import Rare.Model.C01
 import Rare.Model.C01Classify
 import Rare.Model.C01Trim
 import Rare.Model.PipelineTrace
+import Rare.Model.C01Summary
+import Rare.Model.C01Flags
 import Rare.Drv.Expr
 namespace Rare.Drv.C01
 open Rare Rare.C01 Rare.Proto Rare.Pipeline
@@ -30,7 +32,7 @@ def parseIgnores (s : String) : Option (Option (List Bytes)) :=
 def parseClsSpec (m ig ex : String) : Option ClsSpec := do
   let ig ← parseIgnores ig
   let ex ← Hex.dec ex
-  if m = "h" ∨ m = "n" then pure { matcher := m, ignores := ig, extract := ex } else none
+  if m = "h" ∨ m = "n" ∨ m = "a" then pure { matcher := m, ignores := ig, extract := ex } else none
 
 /-- source names: `OpenFilesToChan` reports the file name it was given (the harness passes `f0000`, … relative
     to the case's directory), `OpenReaderToChan` the name it was given (`s0`). -/
@@ -39,6 +41,9 @@ def sourceName (files : Bool) (i : Nat) : Bytes :=
     let d := toString i
     ascii ("f" ++ String.ofList (List.replicate (4 - d.length) '0') ++ d)
   else ascii ("s" ++ toString i)
+
+/-- the default matcher of the command line (`-m .*`): every line matches, group 0 is the line -/
+def wholeLine (l : Bytes) : List Int := [0, l.length]
 
 inductive Built
   | ok (e : Extractor)
@@ -61,7 +66,7 @@ def buildExtractor (spec : ClsSpec) (files : Bool) : Built :=
   | .ok none, _ => .compileError
   | _, .ok none => .compileError
   | .ok (some ig), .ok (some ex) =>
-    .ok { matcher := if spec.matcher = "n" then harnessIndicesN else harnessIndices,
+    .ok { matcher := if spec.matcher = "n" then harnessIndicesN else if spec.matcher = "a" then wholeLine else harnessIndices,
           names := if spec.matcher = "n" then harnessNamesN else [],
           ignore := ig, extract := ex, sourceName := sourceName files }
 
@@ -185,6 +190,52 @@ def traceCase (blob : String) (k : PipelineTrace.Cfg → List TraceOrder.Ev → 
           | _, _ => "bad-args cfg/trace"
   | _ => "bad-args blob"
 
+/-! ### Summary line, flags, `filter -n` -/
+
+def bit (s : String) : Option Bool := if s = "1" then some true else if s = "0" then some false else none
+
+def summaryOp : List String → String
+  | [fmt, col, m, r, i, e, parts] =>
+    match bit fmt, bit col, m.toNat?, r.toNat?, i.toNat?, e.toNat?, decHexList parts with
+    | some fmt, some col, some m, some r, some i, some e, some parts =>
+      s!"ok {Hex.enc (extractorSummary fmt col m r i e parts)}"
+    | _, _, _, _, _, _, _ => "bad-args"
+  | _ => "bad-args"
+
+def flagsOp : List String → String
+  | [input, batch, bb, workers, readers] =>
+    match batch.toInt?, bb.toInt?, workers.toInt?, readers.toInt? with
+    | some batch, some bb, some workers, some readers =>
+      let inp := if input = "stdin" then Input.stdin else Input.files
+      match configure ⟨batch, bb, workers, readers⟩ inp with
+      | .error u => s!"usage {u.code} {Hex.enc (ascii u.msg)}"
+      | .ok c => s!"ok batch={c.batch} B={c.B} W={c.W} K={c.K} timed={if c.timed then 1 else 0} R={c.R}"
+    | _, _, _, _ => "bad-args"
+  | _ => "bad-args"
+
+/-- `filtern <limit> <fmt> <input> <ignores> <extract>`: `rare filter -n limit` over ONE file with one reader and one
+    worker (so the matches arrive in input order): the printed keys and the stderr line. -/
+def filterOp : List String → String
+  | [limit, fmt, inp, ig, ex] =>
+    match limit.toInt?, bit fmt, Hex.dec inp, parseClsSpec "a" ig ex with
+    | some limit, some fmt, some data, some spec =>
+      match buildExtractor spec true with
+      | .compileError => "compile-error"
+      | .fail m => failAns m
+      | .ok e =>
+        let ls := allLines [data]
+        match firstPanic e ls with
+        | some m => failAns m
+        | none =>
+          -- `uint64(c.Int64("num"))`
+          let lim : Nat := if limit < 0 then (18446744073709551616 + limit).toNat else limit.toNat
+          let t := seqTotals (clsOf e) ls
+          let keys := (seqMatches (clsOf e) ls).map (keyOf e)
+          let printed := filterLoop lim [keys] []
+          s!"ok out={hexList printed} err={Hex.enc (filterSummary fmt false lim printed.length t.matched t.read t.ignored)}"
+    | _, _, _, _ => "bad-args"
+  | _ => "bad-args"
+
 /-- `pipe <inputs hexlist> <mode> <batch> <workers> <readers> <buffer> <flushms> <script> <procs> <delay>
     [<matcher> <ignores> <extract>]`: the reference outcome – sequential evaluation in which every line is
     classified with its own source name and 1-based line number (independent of batch/worker/reader/buffer
@@ -205,6 +256,13 @@ def handle : List String → String
       | _ => "bad-args"
     | none => "bad-args"
   | "ptrace" :: blob :: _ => traceCase blob fun cfg evs => (pipeTrace cfg evs).answer
+  | "summary" :: rest => summaryOp rest
+  | ["hui", fmt, n] =>
+    match bit fmt, n.toNat? with
+    | some fmt, some n => s!"ok {Hex.enc (hui fmt n)}"
+    | _, _ => "bad-args"
+  | "flags" :: rest => flagsOp rest
+  | "filtern" :: rest => filterOp rest
   | ["trim", h] =>
     -- `strings.TrimSpace` byte for byte, `Truthy` as Go computes it, and the `truthy` of the shared expression model
     match Hex.dec h with
